@@ -455,16 +455,26 @@ class Exec:
             return
         exists = key3 in self.canon and self.canon[key3] in self.mem
         if kind in ('add', 'new_write'):
+            # every seventh creation names the file by a path below a root directory (the documented `root` parameter)
+            root_form = dseed % 7 == 0 and isinstance(forms[0], str) and not forms[0].startswith('/')
             try:
-                if kind == 'add':
+                if root_form:
+                    rooted = os.path.join('/srv/game/content', forms[0])
+                    if kind == 'add':
+                        self.vpk.add_file(rooted, data, '/srv/game/content', arch_index=arch)
+                        info = self.vpk[nm]
+                    else:
+                        info = self.vpk.new_file(rooted, root='/srv/game/content')
+                    self.run.count('files_created_relative_to_root')
+                elif kind == 'add':
                     self.vpk.add_file(nm, data, arch_index=arch)
                     info = self.vpk[nm]
                 else:
                     info = self.vpk.new_file(nm)
-                    if not exists:
-                        if info.read() != b'' or info.size != 0:
-                            self.fail(f'new_file({nm!r}) is not empty', key='new-file-not-empty')
-                        info.write(data, arch)
+                if kind != 'add' and not exists:
+                    if info.read() != b'' or info.size != 0:
+                        self.fail(f'new_file({nm!r}) is not empty', key='new-file-not-empty')
+                    info.write(data, arch)
                 self.run.count('files_created')
             except FileExistsError:
                 if exists:
@@ -783,7 +793,7 @@ def main(run, shard=(0, 1)) -> None:
         shutil.rmtree(base, ignore_errors=True)
     probe.report(run)
     probe.check_reached(run)
-    run.require('operations', 'dirfile_writes', 'file_reads_compared', 'decoder_files_compared', 'name_forms_compared',
+    run.require('files_created_relative_to_root', 'operations', 'dirfile_writes', 'file_reads_compared', 'decoder_files_compared', 'name_forms_compared',
                 'readonly_rejections', 'overwrites', 'deletes', 'writes_crossing_preload_limit', 'writes_over_64k',
                 'open_a', 'open_r', 'open_w')
 
